@@ -495,7 +495,14 @@ def _borrowed(modname, fname):
 BORROWED = [_borrowed("c03", "r4_completion_consumes"), _borrowed("c05", "r6_refused_insert_is_pure")]
 
 
-RULES = [r1_effect_summaries, r2_ledger, r3_notification_arms, r4_lost_drop_is_recovered, r5_no_unaccounted_success_path, r6_no_state_outside_the_manager, rarr_every_element] + BORROWED
+
+def rkeys_manager_keys_not_derived(ctx):
+    """ids are matched exactly"""
+    from .common import manager_keys_not_derived
+    manager_keys_not_derived(ctx, "C18.KEYS")
+
+
+RULES = [r1_effect_summaries, r2_ledger, r3_notification_arms, r4_lost_drop_is_recovered, r5_no_unaccounted_success_path, r6_no_state_outside_the_manager, rarr_every_element, rkeys_manager_keys_not_derived] + BORROWED
 
 LEVEL_TEXT = (
     "A ledger over the client's four private tables decided from the type-checked program: per-method effect summaries "
